@@ -358,7 +358,13 @@ def sites_of(cx, fn):
     def calls_in(n):
         """calls to the listed routines inside an expression, in evaluation order of clang's walk"""
         res = []
-        for m in astq.walk(n):
+
+        def post(x):                      # a call's arguments are evaluated before the call: inner calls first
+            if isinstance(x, dict):
+                for c in x.get("inner", []) or []:
+                    yield from post(c)
+                yield x
+        for m in post(n):
             if m.get("kind") == "CallExpr":
                 inner = m.get("inner") or []
                 callee = astq.strip(inner[0]) if inner else {}
